@@ -613,6 +613,21 @@ func cmdCheck(args []string) int {
 		fmt.Fprintln(os.Stderr, "gobv: no baseline:", err)
 		return 2
 	}
+	// vacuity guard: exit clauses on a function literal that is analysed inline with its parent (no `modular`)
+	// would never be evaluated
+	for _, b := range e.cs.Blocks {
+		if b.Kind != "func" {
+			continue
+		}
+		if fn := e.funcs[b.Name]; fn != nil && fn.Parent() != nil && !strings.HasPrefix(b.Name, "var:") && b.First("modular") == nil {
+			for _, k := range []string{"ensures", "ensures-panic", "panics", "nopanic"} {
+				if b.First(k) != nil {
+					fmt.Printf("HARNESS-ERROR: %s has %s clauses but is analysed inline (not `modular`): they would never be checked\n", b.Name, k)
+					return 2
+				}
+			}
+		}
+	}
 	want := base.Properties[*prop]
 	if len(want) == 0 {
 		fmt.Fprintf(os.Stderr, "gobv: property %s has no admitted obligations\n", *prop)
